@@ -574,6 +574,24 @@ Definition tuple1_variant_expr_cfg (fixed : bool) (T : space) (e : Value.expr) :
   | _ => false
   end.
 
+(* the entry's own default (`impl Default` / definition default) is rendered by output_value at the entry's
+   id (C06's model needs the id for the in-progress guard of fix fd85c79); the id is found by the type name,
+   which is unique whenever the `items` conjunct holds *)
+Definition id_of_name (T : space) (n : ustring) : option id :=
+  option_map fst (find (fun ie => match det_name (e_det (snd ie)) with
+                                  | Some m => ustr_eqb m n
+                                  | None => false
+                                  end) (sp_entries T)).
+
+Definition entry_default_expr (T : space) (d : details) (v : json) : Defaults.res Value.expr :=
+  match det_name d with
+  | Some n => match id_of_name T n with
+              | Some i => Value.output_value T (fuel_of T) i v
+              | None => Defaults.RPanic
+              end
+  | None => Defaults.RPanic
+  end.
+
 Definition rendered_defaults (T : space) (d : details) : list Value.expr :=
   (* property defaults with a bespoke function, and the entry's own default (impl Default) *)
   flat_map (fun np =>
@@ -586,7 +604,7 @@ Definition rendered_defaults (T : space) (d : details) : list Value.expr :=
                        end) (snd np)) (props_of_det d) ++
   match d with
   | DEnum _ (Some v) _ _ _ _ | DStruct _ (Some v) _ _ | DNewtype _ (Some v) _ _ =>
-      match Value.output_det T (Value.output_value T (fuel_of T)) d v with
+      match entry_default_expr T d v with
       | Defaults.ROk e => [e]
       | _ => []
       end
@@ -612,7 +630,7 @@ Definition mentions_default_det (T : space) (d : details) : bool :=
       (struct_default_all ps && existsb (fun p => match p_state p with POptional => true | _ => false end) ps)
   | DStruct _ (Some v) ps _ =>
       s_builder (sp_settings T) ||
-      match Value.output_det T (Value.output_value T (fuel_of T)) d v with
+      match entry_default_expr T d v with
       | Defaults.ROk e => Value.expr_any Value.is_default_fill e
       | _ => false
       end
